@@ -309,3 +309,43 @@ pub proof fn flatg_cbc_dec<T>(outs: Seq<Seq<T>>, ins: Seq<Seq<T>>, v: spec_fn(T)
         assert(0 * w == 0) by (nonlinear_arith);
     }
 }
+
+// prefix / suffix of a concatenation at a block boundary
+pub proof fn flatg_take<T>(s: Seq<Seq<T>>, k: int, b: nat)
+    requires 0 <= k <= s.len(), forall |i: int| 0 <= i < s.len() ==> (#[trigger] s[i]).len() == b
+    ensures flatg(s).take(k * b) == flatg(s.take(k)), flatg(s).skip(k * b) == flatg(s.skip(k)), k * b <= flatg(s).len()
+    decreases s.len()
+{
+    flatg_len(s, b);
+    assert(k * b <= s.len() * b) by (nonlinear_arith) requires 0 <= k <= s.len();
+    if k == s.len() {
+        assert(s.take(k) =~= s);
+        assert(flatg(s).take(k * b) =~= flatg(s));
+        assert(s.skip(k) =~= Seq::<Seq<T>>::empty());
+        assert(flatg(s).skip(k * b) =~= Seq::<T>::empty());
+    } else {
+        let dl = s.drop_last();
+        flatg_len(dl, b);
+        flatg_take(dl, k, b);
+        assert(k * b <= (s.len() - 1) * b) by (nonlinear_arith) requires 0 <= k <= s.len() - 1;
+        assert(dl.take(k) =~= s.take(k));
+        assert(flatg(s).take(k * b) =~= flatg(dl).take(k * b));
+        assert(s.skip(k) =~= dl.skip(k).push(s.last()));
+        flatg_push(dl.skip(k), s.last());
+        assert(flatg(s).skip(k * b) =~= flatg(dl).skip(k * b) + s.last());
+    }
+}
+
+// ceil(l / b) for l = n*b + d, 0 <= d < b
+pub proof fn div_ceil_of_chunks(n: int, d: int, b: int)
+    requires n >= 0, 0 <= d < b
+    ensures (n * b + d + b - 1) / b == (if d == 0 { n } else { n + 1 }), (n * b) % b == 0, (n * b) / b == n
+{
+    vstd::arithmetic::div_mod::lemma_fundamental_div_mod_converse(n * b, b, n, 0);
+    if d == 0 {
+        vstd::arithmetic::div_mod::lemma_fundamental_div_mod_converse(n * b + b - 1, b, n, b - 1);
+    } else {
+        assert(n * b + d + b - 1 == (n + 1) * b + (d - 1)) by (nonlinear_arith);
+        vstd::arithmetic::div_mod::lemma_fundamental_div_mod_converse((n + 1) * b + (d - 1), b, n + 1, d - 1);
+    }
+}
